@@ -37,6 +37,8 @@ type scenario struct {
 	BlockedWrites bool `json:"client_not_reading,omitempty"`
 	// Retry: after the return the backend sends a HelloRetryRequest and the client a second hello
 	Retry bool `json:"retry_after_return,omitempty"`
+	// RetryCut > 0: that second hello arrives framed in two records, the first carrying RetryCut bytes of the message
+	RetryCut int `json:"second_hello_first_fragment,omitempty"`
 	// Fragmented: the stall offsets refer to the same hello framed in two records (the first record is complete from
 	// offset firstRecLen on, the hello is not)
 	Fragmented bool `json:"hello_in_two_records,omitempty"`
@@ -180,7 +182,11 @@ func run(sc scenario, choose vs.Chooser, traceOn bool) (*observation, *vs.Sched,
 			if _, err := conn.Write(hrrRec); err != nil {
 				ob.writeErr = err
 			}
-			t.Feed(hello2Rec)
+			if sc.RetryCut > 0 {
+				t.Feed(tlsref.Fragment(0x0303, hello2Rec[5:], sc.RetryCut))
+			} else {
+				t.Feed(hello2Rec)
+			}
 			ob.read2N, ob.read2Err = conn.Read(buf)
 			ob.didRetry = true
 		}
@@ -311,6 +317,9 @@ func scenarios() []scenario {
 				out = append(out, scenario{Hello: h, Cancel: c, Keys: k})
 				if k && !never {
 					out = append(out, scenario{Hello: h, Cancel: c, Keys: k, Retry: true})
+					if h == "buffered" || h == "two-records" {
+						out = append(out, scenario{Hello: h, Cancel: c, Keys: k, Retry: true, RetryCut: 3}, scenario{Hello: h, Cancel: c, Keys: k, Retry: true, RetryCut: 100})
+					}
 				}
 				if !never && h != "two-fragments" {
 					// the caller's own deadline, set before the call, must come back untouched
@@ -474,7 +483,7 @@ func Run(r *ev.Run, replay string) {
 		return
 	}
 	b := bound(r.Tier)
-	r.Rule(fmt.Sprintf("E3 stateless exploration of the real NewConn (sources rewritten into scheduler shims at check time) in virtual time: scenarios = hello {already buffered, arriving at t=1, in two fragments at t=0 and t=2, in two TLS records at t=0 and t=2, only the first of two records, never, a complete record that is not a handshake record (refused; the alert is written to a client that reads or never reads)} x context {never ends, cancelled by another thread at t=0/1/3, cancelled by the caller right after NewConn returned, deadline at t=2, deadline at t=5 cancelled at t=1} x keys {yes,no} x {plain use, HelloRetryRequest + second hello after the return, caller's own transport deadline set before the call}; threads = caller (NewConn, then Read/Write on the result), canceller, client, and the watcher NewConn spawns; ALL schedules with at most %d deviations (preemption / non-canonical thread pick, non-first ready select case, timer order). Monitors: NewConn fails only if the context ended before the hello was complete and then no later than that instant; after a successful return no deadline call starts, no deadline is left set (a deadline the caller had set before is still exactly that), and the caller's I/O succeeds. distinct = distinct scenarios", b))
+	r.Rule(fmt.Sprintf("E3 stateless exploration of the real NewConn (sources rewritten into scheduler shims at check time) in virtual time: scenarios = hello {already buffered, arriving at t=1, in two fragments at t=0 and t=2, in two TLS records at t=0 and t=2, only the first of two records, never, a complete record that is not a handshake record (refused; the alert is written to a client that reads or never reads)} x context {never ends, cancelled by another thread at t=0/1/3, cancelled by the caller right after NewConn returned, deadline at t=2, deadline at t=5 cancelled at t=1} x keys {yes,no} x {plain use, HelloRetryRequest + second hello (in one record, or in two records cut after 3 / 100 bytes) after the return, caller's own transport deadline set before the call}; threads = caller (NewConn, then Read/Write on the result), canceller, client, and the watcher NewConn spawns; ALL schedules with at most %d deviations (preemption / non-canonical thread pick, non-first ready select case, timer order). Monitors: NewConn fails only if the context ended before the hello was complete and then no later than that instant; after a successful return no deadline call starts, no deadline is left set (a deadline the caller had set before is still exactly that), and the caller's I/O succeeds. distinct = distinct scenarios", b))
 	r.Assume("computation takes zero virtual time; sequentially consistent memory at synchronisation granularity", "the transport is a scheduler-aware fake whose Read honours deadlines")
 	explore(r, scenarios(), b, "c10")
 }
